@@ -43,8 +43,8 @@ func c02Check(in []byte, m *stun.Message) (outcome, key, detail string) {
 			if c02Prev != nil {
 				prev = c02Prev
 			}
-			for e := 1; e <= 4; e++ {
-				if len(in) > 24 && e != 1+len(in)%4 && c02Prev == nil {
+			for e := 1; e <= 7; e++ {
+				if len(in) > 24 && e != 1+(len(in)+int(in[len(in)-1]))%7 && c02Prev == nil {
 					continue
 				}
 				m.Raw = append(make([]byte, 0, len(in)+len(prev)), prev...)
@@ -73,7 +73,8 @@ var c02Prev []byte
 // c02Entry selects the decode entry point of c02Check1 (0: Message.Decode on Raw = input).
 var c02Entry int
 
-var c02EntryNames = []string{"Message.Decode", "ReadFrom", "Write", "Decode(data,m)", "UnmarshalBinary"}
+var c02EntryNames = []string{"Message.Decode", "ReadFrom", "Write", "Decode(data,m)", "UnmarshalBinary",
+	"CloneTo", "CloneTo/after-the-source's-own-decode-attempt", "CloneTo/inside-ForEach-of-the-source"}
 
 func c02Check1(in []byte, m *stun.Message) (outcome, key, detail string) {
 	want, why := ref.Parse(in)
@@ -90,6 +91,27 @@ func c02Check1(in []byte, m *stun.Message) (outcome, key, detail string) {
 		err = stun.Decode(in, m)
 	case 4:
 		err = m.UnmarshalBinary(in)
+	case 5:
+		err = (&stun.Message{Raw: append([]byte(nil), in...)}).CloneTo(m)
+	case 6:
+		src := &stun.Message{Raw: append([]byte(nil), in...)}
+		_ = src.Decode() // may fail part-way: the source then holds a partial attribute list
+		err = src.CloneTo(m)
+	case 7:
+		src := &stun.Message{Raw: append([]byte(nil), in...)}
+		called := false
+		if src.Decode() == nil && len(src.Attributes) >= 2 {
+			_ = src.ForEach(src.Attributes[len(src.Attributes)-1].Type, func(mm *stun.Message) error {
+				if !called {
+					called = true
+					err = mm.CloneTo(m)
+				}
+				return nil
+			})
+		}
+		if !called {
+			err = src.CloneTo(m)
+		}
 	}
 	if (err == nil) != (want != nil) {
 		if want == nil {
